@@ -97,6 +97,10 @@ EXPLANATION += (
     ' Round 13: the election keeps exactly the configured number of candidates (rules of C03), which is what the HDF5 writer sizes its arrays from.'
 )
 
+EXPLANATION += (
+    ' Round 16: to_str serialises every top-level table the class consults (R-AGREE/serialised-tree-complete).'
+)
+
 RULE_TEXT = (
     "one obligation per consumed record key, per dataset, per record key "
     "of the codec, per constant relation; non-trivial when the key / "
